@@ -1,4 +1,5 @@
 import ScrutModel.Lemmas.CramOrphan
+import ScrutModel.Lemmas.LineParserExit
 /-!
 # C07 — Cram documents: indented `$` blocks become the written tests, in order
 
@@ -28,7 +29,7 @@ indented lines that are not below a command used to be kept in the engine and be
 namespace Scrut.Props.C07
 open Scrut.LineParser Scrut.Cram
 
-/-- **C07 (never crashes)**: parsing any text with any indentation either fails with one of the six
+/-- **C07 (never crashes)**: parsing any text with any indentation either fails with one of the seven
 `bail!`s of `line_parser.rs` or yields the Cram document configuration and a list of tests.
 (`cram.rs`/`line_parser.rs` contain no index, slice, subtraction or `unwrap`; that the real parser
 does not panic is checked on every generated document by the correspondence.) -/
@@ -39,7 +40,9 @@ theorem C07_no_crash (expOk : List Char → Bool) (n : Nat) (text : List Char) :
 
 /-- **C07 (documents by construction)**: for every indentation `n+1 ≥ 1` and every document `d` whose
 atoms are well formed (`docOk`: no line breaks inside atoms; titles are non-empty, not indented, not
-`#`; expectation texts parse, do not start with `$ `, are not `[digits]` that fit an `i32`, and the
+`#`; expectation texts parse, do not start with `$ `, are not of the form `[digits]` (CHANGED with the fix
+"exit code out of range": before, only `[digits]` that fit an `i32` were excluded and a larger
+number was read as an expectation; now such a line is the error `exitCodeOutOfRange`), and the
 first one below the command lines does not start with `> `; at most one exit-code line per test,
 its digits fit an `i32`), parsing the rendered text yields exactly `d.tests`: one test per `$ `
 line, in order; shell expression = the command text and the `> ` texts (joined with `\n` by
@@ -137,6 +140,72 @@ whitespace-only line above the command used to become the expectation `""` of `a
 theorem C07_orphan_expectation_regression :
     parseCram (fun _ => true) 2 "  \n  $ a\n".toList = .error (.bodyWithoutCommand 1) := by
   rfl
+
+/-! ## a line `[digits]` is an exit code or an error, never an expectation -/
+
+/-- **C07 (exit-code lines, one step)**: `add_testcase_body` on a body line of the form
+`^\[[0-9]+\]$`, in every state and either parser mode: the errors in the order of the code ("no
+shell expression", then "exit code .. is out of range" when the number exceeds `i32::MAX`, then
+"provided multiple times"), else the number becomes the exit code of the test.  In no case is
+anything appended to the expectations. -/
+theorem C07_exit_code_line_step {κ : Type} (expOk : List Char → Bool) (s : State κ) (line : List Char)
+    (i : Nat) (h : isExitCodeForm line = true) :
+    s.addBody expOk line i =
+      if s.command.isEmpty then .error (.bodyWithoutCommand (i + 1))
+      else match extractExitCode line with
+        | none => .error (.exitCodeOutOfRange (i + 1))
+        | some c =>
+          if s.exitCode.isSome then .error (.exitCodeTwice (i + 1))
+          else .ok ({ s with inCommand := false, exitCode := some c }, .exitCode) :=
+  addBody_exitForm expOk s line i h
+
+/-- the successful case: the step is an exit code step, the number fits into an `i32`, the
+expectations are unchanged -/
+theorem C07_exit_code_line_step_ok {κ : Type} (expOk : List Char → Bool) {s s' : State κ}
+    {line : List Char} {i : Nat} {ct : CodeType} (h : isExitCodeForm line = true)
+    (he : s.addBody expOk line i = .ok (s', ct)) :
+    ct = .exitCode ∧ s'.expectations = s.expectations ∧ s.exitCode = none ∧
+      ∃ c, extractExitCode line = some c ∧ c ≤ i32Max ∧ s'.exitCode = some c :=
+  addBody_exitForm_ok expOk h he
+
+/-- **C07 (no exit-code line among the expectations)**, for *every* text that parses, every
+indentation and every expectation grammar: no expectation of any test has the form
+`^\[[0-9]+\]$`.  (Before the fix, `  $ a⏎  [2147483648]⏎` parsed to the test `a` with the
+expectation `[2147483648]` and no exit code.) -/
+theorem C07_exit_code_line_never_expectation (expOk : List Char → Bool) (n : Nat) (text : List Char)
+    (dc : DocConfig) (ts : List Test) (h : parseCram expOk n text = .ok (dc, ts)) :
+    ∀ t ∈ ts, ∀ e ∈ t.expectations, isExitCodeForm e = false := by
+  unfold parseCram at h
+  split at h
+  · cases h
+  · rename_i ts' hts
+    cases h
+    exact parseLines_noExitForm expOk (indentOf n) (lines text) hts
+
+/-- **regression** (witness of `C07:exit-code-out-of-range-becomes-expectation`) -/
+theorem C07_exit_code_out_of_range_regression :
+    parseCram (fun _ => true) 2 "  $ a\n  [2147483648]\n".toList = .error (.exitCodeOutOfRange 2) ∧
+    parseCram (fun _ => true) 2 "  $ a\n  o\n  [99999999999]\n".toList = .error (.exitCodeOutOfRange 3) := by
+  constructor <;> rfl
+
+/-- the order of the errors: "no shell expression" first, "out of range" before "multiple times" -/
+theorem C07_exit_code_out_of_range_order :
+    parseCram (fun _ => true) 2 "  [2147483648]\n  $ a\n".toList = .error (.bodyWithoutCommand 1) ∧
+    parseCram (fun _ => true) 2 "  $ a\n  [1]\n  [2147483648]\n".toList = .error (.exitCodeOutOfRange 3) ∧
+    parseCram (fun _ => true) 2 "  $ a\n  [1]\n  [2147483647]\n".toList = .error (.exitCodeTwice 3) := by
+  refine ⟨?_, ?_, ?_⟩ <;> rfl
+
+example : isExitCodeForm "[2147483648]".toList = true ∧ extractExitCode "[2147483648]".toList = none ∧
+    exitCodeOverflows "[2147483648]".toList = true := by refine ⟨?_, ?_, ?_⟩ <;> rfl
+/-- the largest exit code, also with leading zeros -/
+example : (parseCram (fun _ => true) 2 "  $ a\n  [2147483647]\n".toList).map (·.2.map (·.exitCode)) =
+    .ok [some 2147483647] := by rfl
+example : extractExitCode "[0002147483647]".toList = some 2147483647 ∧
+    exitCodeOverflows "[0002147483647]".toList = false := by constructor <;> rfl
+/-- not of the form: read as expectations as before -/
+example : isExitCodeForm "[2147483648] (equal)".toList = false ∧ isExitCodeForm "[-1]".toList = false ∧
+    isExitCodeForm "[]".toList = false ∧ isExitCodeForm " [1]".toList = false := by
+  refine ⟨?_, ?_, ?_, ?_⟩ <;> rfl
 
 /-! Non-vacuity -/
 
